@@ -424,6 +424,13 @@ def main(argv):
         # ---- Verus first (fast) ----
         for o in vobs:
             r = run_verus(tmp, o)
+            if r["status"] == "failed":
+                # guard against solver instability (a proof that flips with the resource limit is not a violation):
+                # a genuine failure fails again with a three times larger budget
+                r2 = run_verus(tmp, dict(o, rlimit=o.get("rlimit", 30) * 3 + 7))
+                if r2["status"] == "success":
+                    r2["flaky_first_attempt"] = r["messages"][:2]
+                    r = r2
             results[o["id"]] = r
             log("[verus] %-8s %-28s %s (%s verified, %s errors, %ss)" % (o["id"], o["unit"], r["status"], r["verified"], r["errors"], r["time_s"]))
             if r["status"] == "success":
